@@ -27,7 +27,7 @@ type Config struct {
 var remoteAddrs = []string{
 	"git::https://example.com/p0.git",
 	"git::https://example.com/p1.git", // same length as p0: an equally long alias when it is a clone
-	"https://example.com/p1.tgz",
+	"https://example.com/dl%20x/p1.tgz", // a path that needs escaping
 	"git::ssh://git.example.com/org/p2.git?ref=v1",
 	"https://example.com/dl/p3?archive=tgz",
 	"git::https://example.com/p0.git?ref=main",
